@@ -1477,6 +1477,27 @@ Theorem C02_multi_members_named_file :
                       (N.of_nat (length (RefWriter.header st (a_version a)))) None [] 0) n = Some (SComp c k).
 Proof. exact LoadsMultiObjStm.multi_members_named. Qed.
 
+(* the same for EVERY number (LoadsMultiObjStm.v part C): [defs st p] = what part p currently defines (the numbers in mp_nums, its
+   cross-reference stream, the members of its object streams).  A number no remaining part defines keeps the entry it has
+   (C02_multi_known_untouched); what a part lists as its own ([g_here]: a top-level object, its cross-reference stream, a member --
+   entry [g_ehere]: the offset inside the part resp. container and index) and no LATER part defines keeps that entry to the end
+   (C02_multi_known_keeps_current) -- so a superseded definition, which its part lists too, is overridden exactly by the part that
+   holds the current one, and nothing else is. *)
+Theorem C02_multi_known_untouched :
+  forall (st : fstyle) (a : adoc) (tops : list LoadsTableProofs.top) parts pos prev known maxnum r,
+    write_parts st a tops parts pos prev known maxnum = Some r ->
+    forall n, ~ In n (flat_map (LoadsMultiObjStm.defs st) parts) ->
+      lookup_entry (LoadsMultiObjStm.final_known st a tops parts pos prev known maxnum) n = lookup_entry known n.
+Proof. exact LoadsMultiObjStm.final_known_untouched. Qed.
+
+Theorem C02_multi_known_keeps_current :
+  forall (st : fstyle) (a : adoc) (tops : list LoadsTableProofs.top) p rest pos prev known maxnum r n,
+    write_parts st a tops (p :: rest) pos prev known maxnum = Some r ->
+    LoadsMultiObjStm.g_here st a tops p pos n = true -> ~ In n (flat_map (LoadsMultiObjStm.defs st) rest) ->
+    lookup_entry (LoadsMultiObjStm.final_known st a tops (p :: rest) pos prev known maxnum) n =
+    Some (LoadsMultiObjStm.g_ehere st a tops p pos n).
+Proof. exact LoadsMultiObjStm.known_keeps_current. Qed.
+
 (* [part_dom] is NEEDED, and C02_loads_multi_partial as it stands (no domain) is FALSE: write_parts accepts a superseded
    definition (mp_old) when a later part's mp_nums merely NAMES the number, and does not ask that the later part holds a
    definition.  Three parts: part 1 holds the object stream 20 with member 7 (a dictionary); part 2 holds a "superseded" top-level
@@ -1673,6 +1694,8 @@ Print Assumptions C02_loads_multi_objstm_partial.
 Print Assumptions C02_example_loads_multi_objstm.
 Print Assumptions C02_multi_members_named.
 Print Assumptions C02_multi_members_named_file.
+Print Assumptions C02_multi_known_untouched.
+Print Assumptions C02_multi_known_keeps_current.
 Print Assumptions C02_full_all_partial.
 Print Assumptions C02_loads_multi_partial_needs_domain.
 Print Assumptions C02_example_loads_table.
